@@ -1476,6 +1476,41 @@ fn edge_case(ctx: &mut Ctx, idx: usize, files: &Files, forced: Option<usize>, sc
     } else if expect_ok {
         ctx.fail(idx, "edge-match/within-tolerance-rejected", format!("error although every coordinate has an admissible edge within {:?}: {}", tol, before));
     }
+    // the boundary itself, in the code's own arithmetic (`within_tolerance` is inclusive): an admissible edge
+    // whose centroid is EXACTLY the tolerance away is a match.  Judged only when the verdict cannot depend on a
+    // tie: every side has a single nearest admissible candidate, at or inside the limit, and the call failed
+    // with the matcher's own "unable to match" error
+    if let (Ok(Err(e)), Some((t, u))) = (&r, &tol) {
+        if err_kind(e) == "failed noedgematch" {
+            let mut at_limit = false;
+            let mut undecided = false;
+            for (_, scan) in &sides {
+                let adm: Vec<&(usize, f32, Option<u8>, bool, Option<f64>)> = scan.cands.iter().filter(|c| admissible(c)).collect();
+                let Some(first) = adm.first() else {
+                    undecided = true;
+                    continue;
+                };
+                if adm.iter().filter(|c| c.1 == first.1).count() != 1 {
+                    undecided = true;
+                    continue;
+                }
+                match first.4 {
+                    Some(g) => {
+                        let dist = DistanceUnit::Meters.convert(&Distance::new(g), u).as_f64();
+                        if dist == *t {
+                            at_limit = true;
+                        } else if !(dist < *t) {
+                            undecided = true;
+                        }
+                    }
+                    None => undecided = true,
+                }
+            }
+            if at_limit && !undecided {
+                ctx.fail(idx, "edge-match/tolerance-boundary", format!("the nearest admissible edge's centroid is exactly {} {} away, tolerance {} {}: rejected (the comparison is strict): {}", t, u, t, u, before));
+            }
+        }
+    }
 }
 
 /// the geometry reader draws a progress bar on stderr for every file it loads; silence fd 2 for the run
